@@ -167,6 +167,42 @@ Fixpoint view (d : nat) (h : heap) (v : val) : tree :=
       end
   end.
 
+
+(* ---- ownership predicates used in the isolation theorems *)
+
+(* every reference points inside the heap *)
+Definition wf_val (n : nat) (v : val) : Prop := match v with I _ => True | R l => (l < n)%nat end.
+Definition wf_heap (h : heap) : Prop := forall l k v, In (k, v) (hget h l) -> wf_val (length h) v.
+
+(* the objects at nesting levels < d below v all satisfy P *)
+Fixpoint inside (d : nat) (h : heap) (P : nat -> Prop) (v : val) : Prop :=
+  match d with
+  | O => True
+  | S d' =>
+      match v with
+      | I _ => True
+      | R l => P l /\ forall k x, In (k, x) (hget h l) -> inside d' h P x
+      end
+  end.
+
+(* r is referenced at nesting level exactly d below v *)
+Fixpoint at_level (d : nat) (h : heap) (v : val) (r : nat) : Prop :=
+  match d with
+  | O => v = R r
+  | S d' =>
+      match v with
+      | I _ => False
+      | R l => exists k x, In (k, x) (hget h l) /\ at_level d' h x r
+      end
+  end.
+
+(* no object outside P holds a reference into P *)
+Definition no_ptr_into (P : nat -> Prop) (h : heap) : Prop :=
+  forall l, ~ P l -> forall k r, In (k, R r) (hget h l) -> ~ P r.
+
+(* allocated between h and h' *)
+Definition fresh (h h' : heap) (l : nat) : Prop := (length h <= l < length h')%nat.
+
 (* ================================================================ Part R: the runner *)
 
 (* ContractContext: frontier_states (dict depth -> list of states; keys are 0..n-1) and
